@@ -649,6 +649,148 @@ Section UnfuseGeneric.
     - intros (K & T & e & q & Hin & He & Hq & Hp). exists (K, T). split; [exact Hin|].
       unfold gpieces. cbn [fst]. rewrite He. apply in_map_iff. exists q. split; [now symmetry|exact Hq].
   Qed.
+  (* ---- coordinate semantics of the unfused array ---- *)
+  Context (Hshape : forall K T, In (K, T) (blocks G R Y) ->
+             length K = length (indices G R Y) /\ tshape T = block_shape G (indices G R Y) K).
+  Context (Hext_sz : forall ch e ss st len, lookup (ceqb G) ch ext = Some e -> In (ss, (st, len)) (ranges_from 0 e) ->
+             shape_size (block_shape G subs ss) = len /\ st + len <= size_of G (nth ax (indices G R Y) dflt) ch).
+
+  Notation IX := (indices G R Y).
+  Definition GIX' : list (index G) := replace_with_seq (indices G R Y) ax subs.
+  Definition GY' : aarray G R := mkA G R GIX' (charge G R Y) GUB.
+
+  Lemma Hkq0 : eqb_spec_on keq.
+  Proof. apply (Hke G GL). Qed.
+
+  Lemma coords_inb_gen (ixs : list (index G)) : forall cs : list (coord G), coords_ok G ixs cs = true ->
+    inb (block_shape G ixs (map fst cs)) (map snd cs) = true.
+  Proof.
+    unfold coords_ok. induction ixs as [|ix ixs IH]; intros [|c cs] H; apply andb_true_iff in H;
+      destruct H as [Hl Hf]; cbn [length] in Hl; try discriminate; [reflexivity|].
+    cbn [map]. unfold block_shape. cbn [List.combine map fst snd inb]. cbn [List.combine forallb fst snd] in Hf.
+    apply andb_true_iff in Hf. destruct Hf as [Hc Hf]. rewrite Hc. cbn [andb].
+    apply IH. apply andb_true_iff. split; [exact Hl | exact Hf].
+  Qed.
+
+  (* a block of Y, cut in three at the axis *)
+  Lemma Y_block K T : In (K, T) (blocks G R Y) ->
+    ax < length IX /\ K = firstn ax K ++ nth ax K idc :: skipn (S ax) K /\
+    length (firstn ax K) = ax /\ length (skipn (S ax) K) = length (skipn (S ax) IX) /\
+    tshape T = block_shape G (firstn ax IX) (firstn ax K) ++ size_of G (nth ax IX dflt) (nth ax K idc)
+               :: block_shape G (skipn (S ax) IX) (skipn (S ax) K).
+  Proof.
+    intros Hin. pose proof (Hlen K T Hin) as Hax. destruct (Hshape K T Hin) as [Hl Hsh].
+    split; [lia|]. split; [apply split_at_nth; exact Hax|]. split; [rewrite firstn_length; lia|].
+    split; [rewrite !skipn_length; lia|].
+    rewrite Hsh. rewrite (split_at_nth K ax idc Hax) at 1. rewrite (split_at_nth IX ax dflt) at 1 by lia.
+    rewrite block_shape_app' by (rewrite !firstn_length; lia). reflexivity.
+  Qed.
+
+  Lemma GIX'_eq : ax < length IX -> GIX' = firstn ax IX ++ subs ++ skipn (S ax) IX.
+  Proof. reflexivity. Qed.
+
+  Lemma GUB_shape K' T' : In (K', T') GUB ->
+    length K' = length GIX' /\ tshape T' = block_shape G GIX' K'.
+  Proof.
+    intros Hin. apply GUB_In in Hin. destruct Hin as (K & T & e & [ss [st len]] & HinY & He & Hq & Heq).
+    destruct (Y_block K T HinY) as (Hax & HK & HlL & HlR & Hsh).
+    assert (Hss : length ss = length subs).
+    { apply (Hext_len _ _ _ He). rewrite <- (ranges_keys 0 e). apply in_map_iff. exists (ss, (st, len)). now split. }
+    inversion Heq as [[HK' HT']]. cbn [fst snd].
+    split.
+    - unfold GIX', replace_with_seq. rewrite !app_length, Hss, HlL, HlR, firstn_length. lia.
+    - cbn [treshape tshape]. rewrite Hsh.
+      assert (HbsL : length (block_shape G (firstn ax IX) (firstn ax K)) = ax).
+      { rewrite length_block_shape_min; [rewrite firstn_length; lia|rewrite HlL, firstn_length; lia]. }
+      rewrite (replace_with_seq_middle _ _ _ _ ax HbsL).
+      unfold GIX', replace_with_seq.
+      rewrite block_shape_app' by (rewrite HlL, firstn_length; lia).
+      rewrite block_shape_app' by exact Hss. reflexivity.
+  Qed.
+
+  Lemma gunfuse_sem cL csub cR ch e st len :
+    length cL = ax -> lookup (ceqb G) ch ext = Some e -> In (map fst csub, (st, len)) (ranges_from 0 e) ->
+    (In (map fst cL ++ ch :: map fst cR) (sectors G R Y) -> coords_ok G GIX' (cL ++ csub ++ cR) = true) ->
+    sem G R GY' (cL ++ csub ++ cR) =
+    sem G R Y (cL ++ (ch, st + offset (block_shape G subs (map fst csub)) (map snd csub)) :: cR).
+  Proof.
+    intros HlcL He Hq Hc. set (ss := map fst csub) in *.
+    assert (Hssk : In ss (map fst e)).
+    { rewrite <- (ranges_keys 0 e). apply in_map_iff. exists (ss, (st, len)). now split. }
+    assert (Hss : length ss = length subs) by (apply (Hext_len _ _ _ He Hssk)).
+    unfold sem. cbn [GY' blocks]. rewrite !map_app. cbn [map fst snd]. fold ss.
+    set (K := map fst cL ++ ch :: map fst cR).
+    assert (HlKL : length (map fst cL) = ax) by (now rewrite map_length).
+    assert (Hnth : nth ax K idc = ch) by (unfold K; now apply nth_middle_len).
+    destruct (lookup keq K (blocks G R Y)) as [T|] eqn:E.
+    - apply (lookup_In keq Hkq0) in E.
+      assert (HKsec : In K (sectors G R Y)) by (unfold sectors; apply in_map_iff; exists (K, T); now split).
+      specialize (Hc HKsec).
+      assert (HinU : In (gpiece (K, T) (ss, (st, len))) GUB).
+      { apply GUB_In. exists K, T, e, (ss, (st, len)). rewrite Hnth. now repeat split. }
+      assert (HK' : fst (gpiece (K, T) (ss, (st, len))) = map fst cL ++ ss ++ map fst cR).
+      { unfold gpiece. cbn [fst]. unfold K. now apply replace_with_seq_middle. }
+      rewrite <- HK'.
+      rewrite (In_lookup keq Hkq0 _ (snd (gpiece (K, T) (ss, (st, len)))) _ GUB_NoDup)
+        by (now destruct (gpiece (K, T) (ss, (st, len)))).
+      unfold gpiece. cbn [fst snd].
+      destruct (Y_block K T E) as (Hax & HKs & HlL & HlR & Hsh).
+      assert (HfK : firstn ax K = map fst cL).
+      { unfold K. rewrite firstn_app, HlKL, Nat.sub_diag. cbn [firstn]. rewrite app_nil_r.
+        apply firstn_all2. lia. }
+      assert (HsK : skipn (S ax) K = map fst cR).
+      { unfold K. replace (map fst cL ++ ch :: map fst cR) with ((map fst cL ++ [ch]) ++ map fst cR) by (now rewrite <- app_assoc).
+        rewrite skipn_app. rewrite skipn_all2 by (rewrite app_length; cbn [length]; lia).
+        rewrite app_length. cbn [length app]. rewrite HlKL. replace (S ax - (ax + 1)) with 0 by lia. reflexivity. }
+      rewrite Hnth, HfK, HsK in Hsh.
+      destruct (Hext_sz ch e ss st len He Hq) as [Hsz Hle].
+      (* in-bounds offsets from coords_ok *)
+      apply coords_inb_gen in Hc. rewrite !map_app in Hc. fold ss in Hc.
+      rewrite (GIX'_eq Hax) in Hc.
+      rewrite block_shape_app' in Hc by (rewrite firstn_length; lia).
+      rewrite block_shape_app' in Hc by exact Hss.
+      rewrite inb_app_iff in Hc by (rewrite !map_length, length_block_shape_min; rewrite ?firstn_length, ?map_length; lia).
+      apply andb_true_iff in Hc. destruct Hc as [HiL Hc].
+      rewrite inb_app_iff in Hc by (rewrite map_length, length_block_shape_min; [rewrite <- Hss; unfold ss; now rewrite map_length|exact Hss]).
+      apply andb_true_iff in Hc. destruct Hc as [Hisub HiR].
+      apply (piece_get R T ax st len _ _ _ (block_shape G subs ss) (map snd cL) (map snd csub) (map snd cR) Hsh);
+        try assumption.
+      rewrite length_block_shape_min; rewrite ?firstn_length, ?map_length; lia.
+    - destruct (lookup keq (map fst cL ++ ss ++ map fst cR) GUB) as [T'|] eqn:E2; [exfalso|reflexivity].
+      apply (lookup_In keq Hkq0) in E2. apply GUB_In in E2.
+      destruct E2 as (K2 & T2 & e2 & [ss2 [st2 len2]] & HinY & He2 & Hq2 & Heq).
+      pose proof (f_equal fst Heq) as HK'. unfold gpiece in HK'. cbn [fst] in HK'. unfold replace_with_seq in HK'.
+      pose proof (Hlen _ _ HinY) as L2.
+      assert (Hss2k : In ss2 (map fst e2)).
+      { rewrite <- (ranges_keys 0 e2). apply in_map_iff. exists (ss2, (st2, len2)). now split. }
+      apply app_inv_len in HK'; [|rewrite firstn_length, HlKL; lia]. destruct HK' as [Hb HK'].
+      apply app_inv_len in HK'; [|rewrite Hss, (Hext_len _ _ _ He2 Hss2k); reflexivity]. destruct HK' as [Hs2 Ha].
+      subst ss2.
+      assert (Hc2 : nth ax K2 idc = ch) by (exact (Hext_fun _ _ _ _ _ He2 He Hss2k Hssk)).
+      assert (HK2 : K2 = K).
+      { rewrite (split_at_nth K2 ax idc L2). unfold K. now rewrite <- Hb, <- Ha, Hc2. }
+      subst K2. apply (In_lookup keq Hkq0 _ _ _ Hnd) in HinY. rewrite HinY in E. discriminate.
+  Qed.
+
+  Lemma gunfuse_sem_none cL csub cR :
+    length cL = ax -> length csub = length subs ->
+    (forall K T e, In (K, T) (blocks G R Y) -> lookup (ceqb G) (nth ax K idc) ext = Some e ->
+                   ~ In (map fst csub) (map fst e)) ->
+    sem G R GY' (cL ++ csub ++ cR) = r0 R.
+  Proof.
+    intros HlcL Hlsub Hno. unfold sem. cbn [GY' blocks]. rewrite !map_app.
+    destruct (lookup keq (map fst cL ++ map fst csub ++ map fst cR) GUB) as [T'|] eqn:E2; [exfalso|reflexivity].
+    apply (lookup_In keq Hkq0) in E2. apply GUB_In in E2.
+    destruct E2 as (K2 & T2 & e2 & [ss2 [st2 len2]] & HinY & He2 & Hq2 & Heq).
+    pose proof (f_equal fst Heq) as HK'. unfold gpiece in HK'. cbn [fst] in HK'. unfold replace_with_seq in HK'.
+    pose proof (Hlen _ _ HinY) as L2.
+    assert (Hss2k : In ss2 (map fst e2)).
+    { rewrite <- (ranges_keys 0 e2). apply in_map_iff. exists (ss2, (st2, len2)). now split. }
+    apply app_inv_len in HK'; [|rewrite firstn_length, map_length; lia]. destruct HK' as [Hb HK'].
+    apply app_inv_len in HK'; [|rewrite map_length, Hlsub, (Hext_len _ _ _ He2 Hss2k); reflexivity].
+    destruct HK' as [Hs2 Ha]. apply (Hno K2 T2 e2 HinY He2). now rewrite Hs2.
+  Qed.
+
 End UnfuseGeneric.
 
 Lemma Forall2_map_l_inv {A A' B} (P : A' -> B -> Prop) (h : A -> A') l : forall m,
@@ -1449,6 +1591,179 @@ Section GroupsFuse.
     destruct (level_run SL [] (fuse_core G R x groups) (app_nil_r _) level_init) as (Yf & Hrun & Inv).
     exists Yf. split; [rewrite <- unfuse_slots_groups; exact Hrun|]. now apply level_final.
   Qed.
+  (* everything the extent table of one fused (non-singlet) slot satisfies *)
+  Lemma ext_facts_all g : In g SL -> is_singlet g = false ->
+    (forall c e, lookup (ceqb G) c (extg g) = Some e -> NoDup (map fst e)) /\
+    (forall c e ss, lookup (ceqb G) c (extg g) = Some e -> In ss (map fst e) ->
+       length ss = length (subsg g) /\ exists s', In s' secs /\ ss = sub s' g /\ gc s' g = c) /\
+    (forall c c' e e' ss, lookup (ceqb G) c (extg g) = Some e -> lookup (ceqb G) c' (extg g) = Some e' ->
+       In ss (map fst e) -> In ss (map fst e') -> c = c') /\
+    (forall c e ss st len, lookup (ceqb G) c (extg g) = Some e -> In (ss, (st, len)) (ranges_from 0 e) ->
+       exists s', In s' secs /\ ss = sub s' g /\ len = gsz s' g /\ gc s' g = c /\
+                  st + len <= size_of G (FI g) c /\ block_shape G (subsg g) ss = map (szf s') g /\
+                  rng s' g = (st, len)).
+  Proof.
+    intros Hg Es. destruct (slot_facts g Hg) as (Hgnd & Hglt & Hgne).
+    pose proof (nonsinglet_len g Hgne Es) as Hglen.
+    assert (Hent : forall c e ss, lookup (ceqb G) c (extg g) = Some e -> In ss (map fst e) ->
+              exists s', In s' secs /\ ss = sub s' g /\ gc s' g = c).
+    { intros c e ss He Hss. destruct (ext_entry g c e Hg Es He) as (_ & _ & Hall).
+      apply in_map_iff in Hss. destruct Hss as (p & <- & Hp). rewrite Forall_forall in Hall.
+      destruct (Hall _ Hp) as (s' & Hs' & Hf & _ & Hc). exists s'. now repeat split. }
+    split; [intros c e He; apply (ext_entry g c e Hg Es He)|]. split; [|split].
+    - intros c e ss He Hss. destruct (Hent c e ss He Hss) as (s' & Hs' & -> & Hc). split.
+      + unfold group_subsector, take_axes, subs_of. now rewrite !map_length.
+      + exists s'. now repeat split.
+    - intros c c' e e' ss He He' Hss Hss'.
+      destruct (Hent c e ss He Hss) as (s1 & _ & E1 & <-). destruct (Hent c' e' ss He' Hss') as (s2 & _ & E2 & <-).
+      apply (subsector_determines G ixs secs g (Hsecs' G R GL x g Hwf Hglt Hglen)). congruence.
+    - intros c e ss st len He Hq. destruct (ext_entry g c e Hg Es He) as (Hnde & Hsum & Hall).
+      pose proof (ranges_lookup_In G GL e ss (st, len) Hnde Hq) as Hlk.
+      apply ranges_bounds in Hq. destruct Hq as (_ & Hb & Hine).
+      rewrite Forall_forall in Hall. destruct (Hall _ Hine) as (s' & Hs' & Hf & Hsz & Hc). cbn [fst snd] in Hf, Hsz.
+      exists s'. split; [exact Hs'|]. split; [exact Hf|]. split; [exact Hsz|]. split; [exact Hc|].
+      split; [rewrite <- Hsum; lia|]. split; [rewrite Hf; apply block_shape_subs|].
+      unfold slot_range. rewrite Es, Hc, <- Hf. rewrite (sub_range_eq G R x g Hglen c e ss He), Hlk. reflexivity.
+  Qed.
+
+  (* ---------------- coordinate semantics of the fused array ---------------- *)
+  (* a sector (stored or not) whose sub-sector on every fused group is recorded in that group's table *)
+  Definition recorded (s : list (C G)) : Prop :=
+    forall g, In g SL -> is_singlet g = false -> exists s', In s' secs /\ sub s' g = sub s g.
+
+  Lemma stored_recorded s : In s secs -> recorded s.
+  Proof. intros Hs g _ _. now exists s. Qed.
+
+  Lemma rec_same s s' g : In g SL -> is_singlet g = false -> sub s' g = sub s g ->
+    gc s' g = gc s g /\ gsz s' g = gsz s g /\ rng s' g = rng s g.
+  Proof.
+    intros Hg Es Hsub. destruct (slot_facts g Hg) as (Hnd & Hlt & Hne).
+    pose proof (nonsinglet_len g Hne Es) as Hlen.
+    destruct (subsector_determines G ixs secs g (Hsecs' G R GL x g Hwf Hlt Hlen) s' s Hsub) as [H1 H2].
+    split; [exact H1|]. split; [exact H2|]. unfold slot_range. now rewrite Es, H1, Hsub.
+  Qed.
+
+  Lemma rng_ok_rec s g : recorded s -> In g SL ->
+    snd (rng s g) = gsz s g /\ fst (rng s g) + gsz s g <= size_of G (FI g) (gc s g).
+  Proof.
+    intros Hrec Hg. destruct (is_singlet g) eqn:Es.
+    - apply singlet_inv in Es. destruct Es as (ax & ->).
+      unfold slot_range, group_size, fused_index, group_charge.
+      cbn [is_singlet length Nat.eqb hd map nprod fold_right fst snd]. lia.
+    - destruct (Hrec g Hg Es) as (s' & Hs' & Hsub).
+      destruct (rec_same s s' g Hg Es Hsub) as (H1 & H2 & H3). rewrite <- H1, <- H2, <- H3.
+      now apply rng_ok.
+  Qed.
+
+  Lemma zip_facts_rec s L UL : recorded s -> incl L SL -> Forall2 (Pin s) L UL ->
+    inb (map (fun g => size_of G (FI g) (gc s g)) L) (zipw (Fof s) L UL) = true.
+  Proof.
+    intros Hs Hincl HP.
+    apply (zip_box (fun g => fst (rng s g)) (fun g => map (szf s) g) (fun g => size_of G (FI g) (gc s g)) L UL HP).
+    intros g Hg. rewrite <- gsz_eq. apply (rng_ok_rec s g Hs (Hincl g Hg)).
+  Qed.
+
+  Definition fcoords (cs : list (coord G)) : list (coord G) :=
+    map (fun g => (gc (map fst cs) g, Fof (map fst cs) g (take_axes 0 (map snd cs) g))) SL.
+
+  Lemma coords_ok_nth cs : coords_ok G ixs cs = true ->
+    length cs = n /\ forall ax, ax < n -> nth ax (map snd cs) 0 < szf (map fst cs) ax.
+  Proof.
+    intros Hc. unfold coords_ok in Hc. apply andb_true_iff in Hc. destruct Hc as [Hl Hall].
+    apply Nat.eqb_eq in Hl. split; [exact Hl|]. intros ax Hax. rewrite forallb_forall in Hall.
+    specialize (Hall (nth ax ixs dflt, nth ax cs (idc, 0))). cbn [fst snd] in Hall. unfold sz.
+    change 0 with (snd (idc, 0)) at 1. rewrite map_nth.
+    change idc with (fst (idc, 0)) at 2. rewrite map_nth.
+    apply Nat.ltb_lt. apply Hall. rewrite <- combine_nth by (symmetry; exact Hl).
+    apply nth_In. rewrite combine_length. lia.
+  Qed.
+
+  Lemma Pin_take cs g : coords_ok G ixs cs = true -> In g SL -> Pin (map fst cs) g (take_axes 0 (map snd cs) g).
+  Proof.
+    intros Hc Hg. destruct (coords_ok_nth cs Hc) as [_ Hlt]. destruct (slot_facts g Hg) as (_ & Hglt & _).
+    unfold Pin, take_axes. clear Hg. induction g as [|ax g IH]; [reflexivity|].
+    inversion Hglt as [|? ? Hax Hrest]; subst. cbn [map inb]. rewrite IH by exact Hrest.
+    apply andb_true_iff. split; [apply Nat.ltb_lt; now apply Hlt|reflexivity].
+  Qed.
+
+  Lemma zipw_map_same {A B C} (f : A -> B -> C) (h : A -> B) L : zipw f L (map h L) = map (fun g => f g (h g)) L.
+  Proof. induction L as [|a L IH]; [reflexivity|]. cbn [map]. rewrite zipw_cons. now rewrite IH. Qed.
+
+  Lemma Forall2_map_r_same {A B} (P : A -> B -> Prop) (h : A -> B) L :
+    (forall g, In g L -> P g (h g)) -> Forall2 P L (map h L).
+  Proof.
+    induction L as [|a L IH]; intros H; cbn [map]; constructor; [apply H; now left|].
+    apply IH. intros g Hg. apply H. now right.
+  Qed.
+
+  Lemma zipw_eq_In {A B C} (f f' : A -> B -> C) (P P' : A -> B -> Prop) L : forall U U',
+    Forall2 P L U -> Forall2 P' L U' -> zipw f L U = zipw f' L U' ->
+    forall g, In g L -> exists u u', P g u /\ P' g u' /\ f g u = f' g u'.
+  Proof.
+    induction L as [|a L IH]; intros U U' H1 H2 Heq g Hg; [destruct Hg|].
+    inversion H1 as [|? u ? U0 Hu H1']; subst. inversion H2 as [|? u' ? U0' Hu' H2']; subst.
+    rewrite !zipw_cons in Heq. inversion Heq as [[Hh Ht]].
+    destruct Hg as [<-|Hg]; [now exists u, u'|]. exact (IH U0 U0' H1' H2' Ht g Hg).
+  Qed.
+
+  Theorem fuse_core_sem cs : coords_ok G ixs cs = true -> recorded (map fst cs) ->
+    sem G R (fuse_core G R x groups) (fcoords cs) = sem G R x cs.
+  Proof.
+    intros Hc Hrec. set (s := map fst cs) in *. set (offs := map snd cs).
+    destruct (coords_ok_nth cs Hc) as [Hlcs _].
+    assert (Hls : length s = n) by (unfold s; now rewrite map_length).
+    set (US := map (take_axes 0 offs) SL).
+    assert (HUS : Forall2 (Pin s) SL US).
+    { apply Forall2_map_r_same. intros g Hg. now apply Pin_take. }
+    assert (Hk : map fst (fcoords cs) = map (gc s) SL) by (unfold fcoords; rewrite map_map; reflexivity).
+    assert (Ho : map snd (fcoords cs) = zipw (Fof s) SL US).
+    { unfold fcoords, US. rewrite map_map, zipw_map_same. reflexivity. }
+    assert (Hcat : concat US = permuted 0 offs perm).
+    { unfold US, permuted, take_axes. rewrite <- concat_map, (concat_slots n groups). reflexivity. }
+    destruct level_init as [I_ix I_q I_nd I_shape I_own I_zero].
+    unfold sem at 1. rewrite Hk, Ho. unfold sem.
+    destruct (lookup keq (map fst cs) (blocks G R x)) as [b|] eqn:E; fold s in E.
+    - apply (lookup_In keq Hkq') in E. destruct (I_own s b E) as (T & HT & Hget).
+      unfold Kof in HT. cbn [concat take_axes map] in HT. rewrite app_nil_r in HT. rewrite HT.
+      specialize (Hget US [] HUS (Forall2_nil _)). unfold Iof in Hget. cbn [concat] in Hget.
+      rewrite !app_nil_r in Hget. rewrite Hget, Hcat.
+      destruct wfp as (_ & _ & H). destruct (H _ _ E) as (_ & _ & Hsh & _).
+      apply get_ttranspose; [exact Pperm'| |now apply coords_inb'].
+      rewrite Hsh, length_block_shape_min by exact Hls. now rewrite Plen'.
+    - destruct (lookup keq (map (gc s) SL) (blocks G R (fuse_core G R x groups))) as [T|] eqn:E2; [|reflexivity].
+      apply (lookup_In keq Hkq') in E2. destruct (I_shape _ _ E2) as (_ & Hsh & _).
+      apply (I_zero _ T _ E2).
+      + rewrite Hsh. unfold IXl. cbn [concat map]. rewrite app_nil_r, block_shape_FI.
+        apply (zip_facts_rec s SL US Hrec (incl_refl _) HUS).
+      + intros s2 b2 UL UR Hsb HK HUL HUR Hidx. inversion HUR; subst UR.
+        unfold Kof in HK. cbn [concat take_axes map] in HK. rewrite app_nil_r in HK.
+        unfold Iof in Hidx. cbn [concat] in Hidx. rewrite app_nil_r in Hidx.
+        pose proof (In_secs G R x s2 b2 Hsb) as Hs2.
+        assert (Heq : s2 = s).
+        { destruct wfp as (_ & _ & H). destruct (H _ _ Hsb) as (Hl2 & _).
+          apply NS_inj'; [exact Hl2|exact Hls|]. intros g Hg.
+          assert (Hgc : gc s g = gc s2 g) by (rewrite map_ext_in_iff in HK; now apply HK).
+          destruct (is_singlet g) eqn:Es.
+          - apply singlet_inv in Es. destruct Es as (ax & ->).
+            unfold group_charge in Hgc. cbn [is_singlet length Nat.eqb hd] in Hgc.
+            unfold group_subsector, take_axes. cbn [map]. now rewrite Hgc.
+          - destruct (Hrec g Hg Es) as (s1 & Hs1 & Hsub1).
+            destruct (rec_same s s1 g Hg Es Hsub1) as (G1 & G2 & G3).
+            destruct (zipw_eq_In (Fof s) (Fof s2) (Pin s) (Pin s2) SL US UL HUS HUL Hidx g Hg) as (u & u2 & Pu & Pu2 & Hp).
+            destruct (slot_facts g Hg) as (_ & Hglt & Hgne). pose proof (nonsinglet_len g Hgne Es) as Hglen.
+            destruct (rng_spec G R GL OL x g Hwf Hglt Hglen s1 Hs1) as (e1 & st1 & He1 & Hlk1 & Hr1 & _).
+            destruct (rng_spec G R GL OL x g Hwf Hglt Hglen s2 Hs2) as (e2 & st2 & He2 & Hlk2 & Hr2 & _).
+            rewrite <- Hgc, <- G1, He1 in He2. inversion He2. subst e2.
+            destruct (ext_entry g _ e1 Hg Es He1) as (Hnde & _ & _).
+            destruct (ranges_partition keq Hkq' e1 Hnde) as (_ & _ & _ & _ & Huniq).
+            unfold Fof in Hp. rewrite <- G3 in Hp. unfold slot_range in Hp. rewrite Es, Hr1, Hr2 in Hp. cbn [fst] in Hp.
+            pose proof (offset_lt _ _ Pu) as O1. pose proof (offset_lt _ _ Pu2) as O2.
+            rewrite <- gsz_eq in O1, O2. rewrite <- G2 in O1.
+            rewrite <- Hsub1. symmetry.
+            apply (Huniq (st1 + offset (map (szf s) g) u) (sub s1 g) (sub s2 g) _ _ Hlk1 Hlk2); cbn [fst snd]; lia. }
+        subst s2. apply (In_lookup keq Hkq') in Hsb; [|apply wfp]. fold s in Hsb. rewrite Hsb in E. discriminate.
+  Qed.
+
 End GroupsFuse.
 
 (* ------------------------------------------------------------------ *)
